@@ -109,7 +109,11 @@ Definition model_http (i : http_in) : http_exp :=
     if hi_buffer_resp i then
       let '(evs, b) := resp_mw (hi_maxm i) (hi_max_resp i) (resp_ops i) in
       let v := client_view_of evs in
-      mkHttpExp (v_status v) (Some (v_body v)) (Some (0 <? v_flushes v)) true body (files ++ files_of b)
+      (* an event stream without any body write: ReverseProxy's initial header-flush timer races the end of
+         the copy, so whether a Flush reaches the writer is not determined *)
+      let fl := if hi_sse i && match concat (hi_resp_chunks i) with [] => true | _ => false end
+                then None else Some (0 <? v_flushes v) in
+      mkHttpExp (v_status v) (Some (v_body v)) fl true body (files ++ files_of b)
     else
       mkHttpExp (hi_resp_status i) (Some (concat (hi_resp_chunks i))) None true body files
   end.
